@@ -1,39 +1,410 @@
-(* C09 correspondence evaluator - MINIMAL version used to test the harness (c09.go).
-   The record shape is fixed by the harness; the bodies of [check] / [prop_check] are
-   placeholders to be replaced by the oracle against Generated/RiskSkel.v. *)
-From Coq Require Import ZArith List String Bool.
+(* Correspondence evaluator for C09 (hostile stream).
+   A case = one call of an exported function with hostile arguments:
+     c_api / c_args : the call and integer facts about its arguments and the situation
+                      (documented API by API at the top of harness/cmd/vh/c09.go);
+     c_skel / c_env : the risk skeleton (Generated/RiskSkel.v) that validates the call and the
+                      entries of its environment the harness knows for sure;
+     c_obs          : the observed class ("ok", "true", "false", "err-...", "PANIC: msg").
+   [check]      : MODEL vs implementation.  The skeleton regenerated from the sources is run on
+                  the known entries; when its execution is determinate up to a return (the
+                  argument-validation prefix), the returned tag predicts the class.
+   [prop_check] : the property's own oracle, written from the documentation, independent of
+                  the skeletons: no panic outside the documented exceptions, and an input that
+                  the documentation calls invalid is answered with the documented typed error
+                  or a false verdict, never with success. *)
+From Coq Require Import ZArith List String Bool Ascii.
+From V Require Import Model.Risk Generated.RiskSkel.
 Import ListNotations.
 Open Scope string_scope.
 Open Scope Z_scope.
 
-Record case := mkCase {
-  c_api : string;               (* exported function / method that was called *)
-  c_args : list (string * Z);   (* API facts (documented at the top of harness/cmd/vh/c09.go) *)
-  c_skel : string;              (* key of the risk skeleton modelling the validation ("" = none) *)
-  c_env : list (string * Z);    (* known environment entries of that skeleton *)
-  c_obs : string                (* observed outcome class *)
-}.
+Record case := mkCase { c_api : string; c_args : list (string * Z); c_skel : string;
+                        c_env : list (string * Z); c_obs : string }.
 
-Fixpoint lookup (k : string) (l : list (string * Z)) : option Z :=
-  match l with
-  | [] => None
-  | (k', v) :: r => if String.eqb k k' then Some v else lookup k r
+(* ---------- strings ---------- *)
+Fixpoint contains (sub s : string) : bool :=
+  String.prefix sub s || match s with EmptyString => false | String _ r => contains sub r end.
+
+Definition is_panic (s : string) : bool := String.prefix "PANIC" s.
+
+Fixpoint split_comma (s : string) (cur : string) : list string :=
+  match s with
+  | EmptyString => [cur]
+  | String c r => if Ascii.eqb c ","%char then cur :: split_comma r "" else split_comma r (cur ++ String c "")
   end.
 
-Definition check (c : case) : bool := true.
+Definition mem (x : string) (l : list string) : bool := existsb (String.eqb x) l.
+
+Definition fact (c : case) (k : string) : option Z := assoc k (c_args c).
+Definition factd (c : case) (k : string) (d : Z) : Z := match fact c k with Some v => v | None => d end.
+Definition has (c : case) (k : string) : bool := match fact c k with Some _ => true | None => false end.
+
+(* ---------- partial execution of a skeleton on the known entries ---------- *)
+Definition penv := string -> option Z.
+Definition pupd (e : penv) (x : string) (v : option Z) : penv :=
+  fun y => if String.eqb y x then v else e y.
+
+Definition omap2 (f : Z -> Z -> Z) (a b : option Z) : option Z :=
+  match a, b with Some x, Some y => Some (f x y) | _, _ => None end.
+
+Fixpoint pteval (t : term) (e : penv) : option Z :=
+  match t with
+  | TLen x | TVar x | TOpaque x => e x
+  | TConst z => Some z
+  | TAdd a b => omap2 Z.add (pteval a e) (pteval b e)
+  | TSub a b => omap2 Z.sub (pteval a e) (pteval b e)
+  | TMul a b => omap2 Z.mul (pteval a e) (pteval b e)
+  | TByte a => option_map (fun v => v mod 256) (pteval a e)
+  end.
+
+Definition cmp2 (f : Z -> Z -> bool) (a b : option Z) : option bool :=
+  match a, b with Some x, Some y => Some (f x y) | _, _ => None end.
+
+Fixpoint pceval (c : cond) (e : penv) : option bool :=
+  match c with
+  | CLt a b => cmp2 Z.ltb (pteval a e) (pteval b e)
+  | CLe a b => cmp2 Z.leb (pteval a e) (pteval b e)
+  | CEq a b => cmp2 Z.eqb (pteval a e) (pteval b e)
+  | CNe a b => cmp2 (fun x y => negb (x =? y)) (pteval a e) (pteval b e)
+  | CGt a b => cmp2 Z.ltb (pteval b e) (pteval a e)
+  | CGe a b => cmp2 Z.leb (pteval b e) (pteval a e)
+  | COr a b =>
+      match pceval a e with
+      | Some true => Some true
+      | Some false => pceval b e
+      | None => match pceval b e with Some true => Some true | _ => None end
+      end
+  | CAnd a b =>
+      match pceval a e with
+      | Some false => Some false
+      | Some true => pceval b e
+      | None => match pceval b e with Some false => Some false | _ => None end
+      end
+  | CNot a => option_map negb (pceval a e)
+  | CNil x =>
+      match e x with
+      | Some n => if 0 <? n then Some false
+                  else match e (nil_oracle x) with Some o => Some (o =? 1) | None => None end
+      | None => None
+      end
+  | CTrue => Some true
+  | CFalse => Some false
+  | CUnknown _ => None
+  end.
+
+Inductive pres := PCont (e : penv) | PRet (tag : string) (vs : list (option Z)) | PPanic | PUnknown.
+
+Definition prisk (r : risk) (e : penv) : option bool :=
+  match r with
+  | RIdx x i => match pteval i e, e x with
+                | Some iv, Some n => Some ((0 <=? iv) && (iv <? n)) | _, _ => None end
+  | RSlice x lo hi => match pteval lo e, pteval hi e, e x with
+                      | Some l, Some h, Some n => Some ((0 <=? l) && (l <=? h) && (h <=? n))
+                      | _, _, _ => None end
+  | RMake n => option_map (fun v => 0 <=? v) (pteval n e)
+  | RDiv d => option_map (fun v => negb (v =? 0)) (pteval d e)
+  | RAssert _ | RDeref _ => None
+  | RPanic _ => Some false
+  end.
+
+Fixpoint passoc (k : string) (l : list (string * option Z)) : option (option Z) :=
+  match l with
+  | [] => None
+  | (k', v) :: r => if String.eqb k k' then Some v else passoc k r
+  end.
+
+Definition pcall_env (e : penv) (binds : list (string * term)) (rfrom rto : string) : penv :=
+  let bs := map (fun p => (fst p, pteval (snd p) e)) binds in
+  fun n => match passoc n bs with Some v => v | None => e (rename rfrom rto n) end.
+
+Fixpoint pbind_res (e : penv) (res : list string) (vs : list (option Z)) : penv :=
+  match res with
+  | [] => e
+  | r :: rs =>
+      let v := match vs with v :: _ => v | [] => Some 0 end in
+      pbind_res (if String.eqb r "" then e else pupd e r v) rs (tl vs)
+  end.
+
+Definition prun_list (pone : ev -> penv -> pres) : list ev -> penv -> pres :=
+  fix run (l : list ev) (e : penv) : pres :=
+    match l with
+    | [] => PCont e
+    | x :: r => match pone x e with PCont e' => run r e' | o => o end
+    end.
+
+Fixpoint pone (call : list ev -> penv -> pres) (x : ev) (e : penv) {struct x} : pres :=
+  match x with
+  | ERisk r => match prisk r e with Some true => PCont e | Some false => PPanic | None => PUnknown end
+  | EIf c a b =>
+      match pceval c e with
+      | Some true => prun_list (pone call) a e
+      | Some false => prun_list (pone call) b e
+      | None => PUnknown
+      end
+  | ERet tag vs => PRet tag (map (fun t => pteval t e) vs)
+  | ELoopRange _ x _ => match e x with Some n => if n <=? 0 then PCont e else PUnknown | None => PUnknown end
+  | ELoopN _ lo hi _ =>
+      match pteval lo e, pteval hi e with
+      | Some l, Some h => if h <=? l then PCont e else PUnknown
+      | _, _ => PUnknown
+      end
+  | ELoopWhile c _ => match pceval c e with Some false => PCont e | _ => PUnknown end
+  | EBreak => PUnknown
+  | EAssume c => match pceval c e with Some false => PUnknown | _ => PCont e end
+  | ESetLen x t => PCont (pupd e x (pteval t e))
+  | EReslice x k =>
+      match pteval k e, e x with
+      | Some kv, Some n => if (0 <=? kv) && (kv <=? n) then PCont (pupd e x (Some (n - kv))) else PPanic
+      | _, _ => PUnknown
+      end
+  | EHavoc x o => PCont (pupd e x (e o))
+  | ECall f binds rfrom rto res =>
+      match risk_prog f with
+      | Some body =>
+          match call body (pcall_env e binds rfrom rto) with
+          | PCont _ => PCont (pbind_res e res [])
+          | PRet _ vs => PCont (pbind_res e res vs)
+          | o => o
+          end
+      | None => PUnknown
+      end
+  | EDyn _ | EExt _ | ENote _ => PCont e
+  | EUnknown _ => PUnknown
+  end.
+
+Fixpoint pexec (fuel : nat) : list ev -> penv -> pres :=
+  match fuel with
+  | O => fun _ _ => PUnknown
+  | S n => prun_list (pone (pexec n))
+  end.
+
+Definition penv_of (l : list (string * Z)) : penv := fun n => assoc n l.
+
+Definition predict (c : case) : pres :=
+  match risk_prog (c_skel c) with
+  | Some body => pexec 8 body (penv_of (c_env c))
+  | None => PUnknown
+  end.
+
+(* ---------- from return tags to classes ---------- *)
+Definition err_class_of_head (h : string) : option string :=
+  if String.eqb h "invalidInputsErrorf" then Some "err-invalid-inputs"
+  else if String.eqb h "errInvalidSignature" then Some "err-invalid-signature"
+  else if String.eqb h "errNotBLSKey" then Some "err-not-bls-key"
+  else if String.eqb h "errNilHasher" then Some "err-nil-hasher"
+  else if String.eqb h "invalidHasherSizeErrorf" then Some "err-hasher-size"
+  else if String.eqb h "errBLSAggregateEmptyList" then Some "err-empty-list"
+  else if String.eqb h "duplicatedSignerErrorf" then Some "err-duplicated-signer"
+  else if String.eqb h "notEnoughSharesErrorf" then Some "err-not-enough-shares"
+  else if String.eqb h "dkgFailureErrorf" then Some "err-dkg-failure"
+  else if String.eqb h "dkgInvalidStateTransitionErrorf" then Some "err-dkg-transition"
+  else if String.eqb h "fmt.Errorf" then Some "err-other"
+  else None.
+
+Definition success_classes : list string := ["ok"; "true"; "false"].
+
+(* does the observed class agree with a return built as [tag] whose last value is [lastv]? *)
+Definition tag_matches (tag : string) (lastv : option Z) (obs : string) : bool :=
+  let heads := split_comma tag "" in
+  let lst := last heads "" in
+  let fst_h := hd "" heads in
+  match err_class_of_head lst with
+  | Some cl => String.eqb obs cl
+  | None =>
+      if String.eqb lst "nil" then
+        if (1 <? Z.of_nat (List.length heads)) && String.eqb fst_h "true" then String.eqb obs "true"
+        else if (1 <? Z.of_nat (List.length heads)) && String.eqb fst_h "false" then String.eqb obs "false"
+        else mem obs success_classes
+      else if String.eqb lst "fmt.Errorf%w" then String.prefix "err-" obs
+      else match lastv with
+           | Some 0 => if String.eqb lst "err" then mem obs success_classes else true
+           | Some _ => if String.eqb lst "err" then String.prefix "err-" obs else true
+           | None => true
+           end
+  end.
+
+Definition check (c : case) : bool :=
+  if has c "finding.prg-counter-overflow" || has c "shadow.prg-counter-overflow" || has c "nil.iface" then true
+  else
+    match predict c with
+    | PRet tag vs => is_panic (c_obs c) || tag_matches tag (last vs None) (c_obs c)
+    | PPanic => is_panic (c_obs c)
+    | _ => true
+    end.
 
 Definition bad_ids (cs : list (N * case)) : list N :=
   map fst (filter (fun p => negb (check (snd p))) cs).
 
-Definition is_panic (s : string) : bool := String.prefix "PANIC" s.
+(* ---------- the property's oracle ---------- *)
+Definition api (c : case) (s : string) : bool := String.eqb (c_api c) s.
+Definition apis (c : case) (l : list string) : bool := mem (c_api c) l.
 
-(* the property: no panic, except UintN(0) and nil interface / callback arguments *)
-Definition exempt (c : case) : bool :=
-  (String.eqb (c_api c) "random.genericPRG.UintN" &&
-   match lookup "n" (c_args c) with Some 0 => true | _ => false end)
-  || match lookup "nil.iface" (c_args c) with Some 1 => true | _ => false end.
+Definition geti (c : case) (k : string) : Z := factd c k 0.
+Definition in_range (v lo hi : Z) : bool := (lo <=? v) && (v <=? hi).
 
-Definition prop_check (c : case) : bool := negb (is_panic (c_obs c)) || exempt c.
+(* classes the documentation allows when the named defect is present; [] = no defect seen.
+   When several defects are present any of their classes is accepted (the documentation does
+   not order them). *)
+Definition when (b : bool) (l : list string) : list string := if b then l else [].
+
+Definition defects (c : case) : list string :=
+  let g := geti c in
+  let algo := g "algo" in
+  let badalgo := negb (in_range algo 1 3) in
+  let size := g "size" in let thr := g "threshold" in
+  (* decoding / key generation *)
+  (when (api c "DecodePrivateKey")
+     (when (badalgo || negb (g "input" =? 32)) ["err-invalid-inputs"]) ++
+   when (api c "DecodePublicKey")
+     (when (badalgo || ((algo =? 1) && negb (g "input" =? 96)) || ((1 <? algo) && negb (g "input" =? 64)))
+        ["err-invalid-inputs"]) ++
+   when (api c "DecodePublicKeyCompressed")
+     (when (badalgo || ((algo =? 1) && negb (g "data" =? 96)) || ((1 <? algo) && negb (g "data" =? 33)))
+        ["err-invalid-inputs"]) ++
+   when (api c "GeneratePrivateKey")
+     (when (badalgo || (g "seed" <? 32) || (256 <? g "seed")) ["err-invalid-inputs"]) ++
+   when (api c "SignatureFormatCheck")
+     (when (negb (in_range algo 2 3)) ["err-invalid-inputs"] ++ when (negb (g "s" =? 64)) ["false"]) ++
+   (* signing / verification *)
+   when (apis c ["prKeyBLSBLS12381.Sign"; "SPOCKProve"])
+     (when (has c "sk.nonbls" && (0 <? g "sk.nonbls")) ["err-not-bls-key"] ++
+      when (g "kmac" =? 0) ["err-nil-hasher"] ++
+      when ((g "kmac" =? 1) && negb (g "kmac.size" =? 128)) ["err-hasher-size"]) ++
+   when (api c "prKeyECDSA.Sign")
+     (when (g "alg" =? 0) ["err-nil-hasher"] ++ when ((g "alg" =? 1) && (g "alg.size" <? 32)) ["err-hasher-size"]) ++
+   when (api c "pubKeyBLSBLS12381.Verify")
+     (when (g "kmac" =? 0) ["err-nil-hasher"] ++
+      when ((g "kmac" =? 1) && negb (g "kmac.size" =? 128)) ["err-hasher-size"] ++
+      when (negb (g "s" =? 48) || (g "pk.isIdentity" =? 1) || (g "s.genuine" =? 0)) ["false"]) ++
+   when (api c "pubKeyECDSA.Verify")
+     (when (g "alg" =? 0) ["err-nil-hasher"] ++ when ((g "alg" =? 1) && (g "alg.size" <? 32)) ["err-hasher-size"] ++
+      when (negb (g "sig" =? 64) || (g "sig.genuine" =? 0)) ["false"]) ++
+   when (api c "BLSGeneratePOP") (when (0 <? g "sk.nonbls") ["err-not-bls-key"]) ++
+   when (api c "BLSVerifyPOP")
+     (when (0 <? g "pk.nonbls") ["err-not-bls-key"] ++
+      when (negb (g "s" =? 48) || (g "pk.isIdentity" =? 1) || (g "s.genuine" =? 0)) ["false"]) ++
+   when (api c "SPOCKVerifyAgainstData")
+     (when (0 <? g "pk.nonbls") ["err-not-bls-key"] ++ when (g "kmac" =? 0) ["err-nil-hasher"] ++
+      when ((g "kmac" =? 1) && negb (g "kmac.size" =? 128)) ["err-hasher-size"] ++
+      when (negb (g "proof" =? 48) || (g "pk.isIdentity" =? 1) || (g "proof.genuine" =? 0)) ["false"]) ++
+   when (api c "SPOCKVerify")
+     (when ((0 <? g "pk1.nonbls") || (0 <? g "pk2.nonbls")) ["err-not-bls-key"] ++
+      when (negb (g "proof1" =? 48) || negb (g "proof2" =? 48) || (g "pk1.isIdentity" =? 1) || (g "pk2.isIdentity" =? 1))
+        ["false"]) ++
+   (* aggregation *)
+   when (api c "AggregateBLSSignatures")
+     (when (g "sigs" =? 0) ["err-empty-list"] ++ when (0 <? g "sigs.badlen") ["err-invalid-signature"]) ++
+   when (apis c ["AggregateBLSPrivateKeys"; "AggregateBLSPublicKeys"])
+     (when (g "keys" =? 0) ["err-empty-list"] ++ when (0 <? g "keys.nonbls") ["err-not-bls-key"]) ++
+   when (api c "RemoveBLSPublicKeys")
+     (when ((0 <? g "aggKey.nonbls") || (0 <? g "keysToRemove.nonbls")) ["err-not-bls-key"]) ++
+   when (api c "VerifyBLSSignatureOneMessage")
+     (when (g "pks" =? 0) ["err-empty-list"] ++ when (0 <? g "pks.nonbls") ["err-not-bls-key"] ++
+      when (g "kmac" =? 0) ["err-nil-hasher"] ++
+      when ((g "kmac" =? 1) && negb (g "kmac.size" =? 128)) ["err-hasher-size"] ++
+      when (negb (g "s" =? 48) || (g "s.genuine" =? 0)) ["false"]) ++
+   when (api c "VerifyBLSSignatureManyMessages")
+     (when (g "pks" =? 0) ["err-empty-list"] ++
+      when (negb (g "pks" =? g "messages") || negb (g "kmac" =? g "messages")) ["err-invalid-inputs"] ++
+      when (0 <? g "pks.nonbls") ["err-not-bls-key"] ++ when (0 <? g "kmac.nil") ["err-nil-hasher"] ++
+      when (0 <? g "kmac.badsize") ["err-hasher-size"] ++
+      when (negb (g "s" =? 48) || (0 <? g "pks.identity") || (g "s.genuine" =? 0)) ["false"]) ++
+   when (api c "BatchVerifyBLSSignaturesOneMessage")
+     (when (g "pks" =? 0) ["err-empty-list"] ++ when (negb (g "pks" =? g "sigs")) ["err-invalid-inputs"] ++
+      when (0 <? g "pks.nonbls") ["err-not-bls-key"] ++ when (g "kmac" =? 0) ["err-nil-hasher"] ++
+      when ((g "kmac" =? 1) && negb (g "kmac.size" =? 128)) ["err-hasher-size"] ++
+      when ((0 <? g "sigs.badlen") || (0 <? g "pks.identity")) ["false"]) ++
+   (* threshold signatures *)
+   when (api c "BLSThresholdKeyGen")
+     (when (negb (in_range size 2 254) || negb (in_range thr 1 (size - 1)) || (g "seed" <? 32)) ["err-invalid-inputs"]) ++
+   when (api c "EnoughShares") (when (thr <? 1) ["err-invalid-inputs"]) ++
+   when (api c "BLSReconstructThresholdSignature")
+     (when (negb (in_range size 2 254) || negb (in_range thr 1 (size - 1)) || negb (g "shares" =? g "signers")
+            || (0 <=? factd c "signers.firstoor" (-1))) ["err-invalid-inputs"] ++
+      when (g "shares" <? thr + 1) ["err-not-enough-shares"] ++
+      when (0 <=? factd c "signers.firstdup" (-1)) ["err-duplicated-signer"] ++
+      when (0 <? g "shares.badlen.head") ["err-invalid-signature"]) ++
+   when (apis c ["NewBLSThresholdSignatureInspector"; "NewBLSThresholdSignatureParticipant"])
+     (when (negb (in_range (g "sharePublicKeys") 2 254) || negb (in_range thr 1 (g "sharePublicKeys" - 1)))
+        ["err-invalid-inputs"] ++
+      when ((0 <? g "sharePublicKeys.nonbls") || (0 <? g "groupPublicKey.nonbls") || (0 <? g "myPrivateKey.nonbls"))
+        ["err-not-bls-key"] ++
+      when (api c "NewBLSThresholdSignatureParticipant" &&
+            (negb (in_range (g "myIndex") 0 (g "sharePublicKeys" - 1)) || (factd c "myPrivateKey.match" 1 =? 0)))
+        ["err-invalid-inputs"]) ++
+   when (apis c ["blsThresholdSignatureInspector.VerifyShare"; "blsThresholdSignatureInspector.HasShare";
+                 "blsThresholdSignatureInspector.TrustedAdd"; "blsThresholdSignatureInspector.VerifyAndAdd"])
+     (when (negb (in_range (g "orig") 0 (size - 1))) ["err-invalid-inputs"] ++
+      when ((g "pre.has" =? 1) && apis c ["blsThresholdSignatureInspector.TrustedAdd"; "blsThresholdSignatureInspector.VerifyAndAdd"])
+        ["err-duplicated-signer"] ++
+      when (apis c ["blsThresholdSignatureInspector.VerifyShare"; "blsThresholdSignatureInspector.VerifyAndAdd"] &&
+            (negb (g "share" =? 48) || (g "share.genuine" =? 0))) ["false"]) ++
+   when (api c "blsThresholdSignatureInspector.ThresholdSignature")
+     (when (g "pre" <? thr + 1) ["err-not-enough-shares"] ++
+      when (0 <? g "pre.badlen") ["err-invalid-signature"] ++
+      when (0 <? g "pre.forged") ["err-invalid-signature"; "err-invalid-inputs"]) ++
+   (* hash / random constructors and sampling *)
+   when (api c "hash.NewKMAC_128") (when ((g "outputSize" <? 0) || (g "key" <? 16)) ["err-other"]) ++
+   when (api c "random.NewChacha20PRG") (when (negb (g "seed" =? 32) || (12 <? g "customizer")) ["err-other"]) ++
+   when (api c "random.RestoreChacha20PRG") (when (negb (g "stateBytes" =? 52)) ["err-other"]) ++
+   when (apis c ["random.genericPRG.Permutation"; "random.genericPRG.Shuffle"]) (when (g "n" <? 0) ["err-other"]) ++
+   when (apis c ["random.genericPRG.SubPermutation"; "random.genericPRG.Samples"])
+     (when ((g "m" <? 0) || (g "n" <? g "m")) ["err-other"]) ++
+   (* DKG constructors *)
+   when (apis c ["NewFeldmanVSS"; "NewFeldmanVSSQual"; "NewJointFeldman"])
+     (when (negb (in_range size 2 254) || negb (in_range thr 1 (size - 1)) || negb (in_range (g "myIndex") 0 (size - 1))
+            || (has c "dealerIndex" && negb (api c "NewJointFeldman") && negb (in_range (g "dealerIndex") 0 (size - 1))))
+        ["err-invalid-inputs"]))%list.
+
+(* DKG calls on an instance *)
+Definition dkg_method (c : case) (m : string) : bool :=
+  apis c ["feldmanVSSstate." ++ m; "feldmanVSSQualState." ++ m; "JointFeldmanState." ++ m; "dkgCommon." ++ m].
+
+Definition dkg_defects (c : case) : list string :=
+  let g := geti c in
+  let running := g "running" =? 1 in
+  let size := g "size" in
+  if negb (has c "proto") then []
+  else
+    (when ((dkg_method c "HandleBroadcastMsg" || dkg_method c "HandlePrivateMsg" || dkg_method c "ForceDisqualify"
+            || dkg_method c "End" || (dkg_method c "NextTimeout" && negb (g "proto" =? 0))) && negb running)
+       ["err-dkg-transition"] ++
+     when (dkg_method c "Start" && running) ["err-dkg-transition"] ++
+     when ((dkg_method c "HandleBroadcastMsg" || dkg_method c "HandlePrivateMsg") && running &&
+           negb (in_range (g "orig") 0 (size - 1))) ["err-invalid-inputs"] ++
+     when (dkg_method c "ForceDisqualify" && running && negb (in_range (g "participant") 0 (size - 1)))
+       ["err-invalid-inputs"] ++
+     when (dkg_method c "Start" && negb running && (g "seed" <? 32) &&
+           ((g "proto" =? 2) || (g "myIndex" =? g "dealerIndex"))) ["err-invalid-inputs"])%list.
+
+(* malformed messages must be REPORTED through the Disqualify callback (plain VSS and Qual, fresh
+   running instance whose dealer is not disqualified yet, sender in range and not the receiver) *)
+Definition must_disqualify (c : case) : bool :=
+  let g := geti c in
+  let proto := g "proto" in
+  let size := g "size" in
+  has c "proto" && in_range proto 0 1 && (g "running" =? 1) && (g "pre" =? 0) &&
+  (dkg_method c "HandleBroadcastMsg") && in_range (g "orig") 0 (size - 1) && negb (g "orig" =? g "myIndex") &&
+  ((proto =? 0) || (g "phase" =? 1) || (g "warm" =? 1)) &&
+  ( (* empty broadcast, unknown broadcast tag *)
+    (g "msg" =? 0)
+    || ((proto =? 0) && negb (g "tag" =? 1))
+    || ((proto =? 1) && negb (in_range (g "tag") 1 3))
+    (* Qual, from the dealer, before the complaint timeout: complaint / answer naming an index >= size *)
+    || ((proto =? 1) && (g "orig" =? g "dealerIndex") && (g "phase" <? 3) &&
+        (((g "tag" =? 2) && (g "msg" =? 2)) || ((g "tag" =? 3) && (g "msg" =? 34))) && (size <=? g "idx")) ).
+
+Definition prop_check (c : case) : bool :=
+  let obs := c_obs c in
+  if has c "finding.prg-counter-overflow" then negb (is_panic obs && contains "chacha20: counter overflow" obs)
+  else if has c "shadow.prg-counter-overflow" then negb (is_panic obs) || contains "chacha20: counter overflow" obs
+  else if has c "nil.iface" then true
+  else if api c "random.genericPRG.UintN" && (geti c "n" =? 0) then true
+  else if is_panic obs then false
+  else
+    let ds := (defects c ++ dkg_defects c)%list in
+    (match ds with [] => true | _ => mem obs ds end) &&
+    (negb (must_disqualify c) || (0 <? geti c "cb.disqualify")).
 
 Definition prop_bad_ids (cs : list (N * case)) : list N :=
   map fst (filter (fun p => negb (prop_check (snd p))) cs).
